@@ -67,6 +67,7 @@ func (c *Ctx) rangeEngine(roots []*ssa.Function, byteTaint bool, intSize int) (*
 				return out
 			}
 			cfg.IsInputObj = func(o any) bool { return tainted[o.(*pta.Obj)] }
+			c.streamOracle = cfg.StreamSlice
 			c.C.Note("stream-tainted byte buffers (points-to closure): %d objects", len(tainted))
 		} else {
 			c.C.Fatalf("effects engine unavailable for byte-taint oracle: %v", err)
@@ -116,8 +117,8 @@ func decideRange(av ranges.AV, lo, hi int64, forbidZero bool) (report.Status, st
 		if av.ZeroDef {
 			return report.Violated, "divisor " + av.String() + " is a field that is only assigned by a separate parsing step and never compared anywhere: if the stream omits or reorders that step the field still holds its zero value"
 		}
-		if !av.SanLo && !av.SanHi || (av.Lo() == 0 && !av.SanLo) {
-			return report.Violated, "stream-controlled divisor " + av.String() + " is used without any check that excludes 0"
+		if av.Raw && !av.SanLo && !av.SanHi {
+			return report.Violated, "adversarial divisor " + av.String() + " is used as it arrived, without any check that excludes 0"
 		}
 		// a divisor that was limited somewhere but may still be 0: zero is a single point that a range
 		// check (x < 1 / x <= 0 / x == 0) must exclude explicitly
@@ -126,10 +127,10 @@ func decideRange(av ranges.AV, lo, hi int64, forbidZero bool) (report.Status, st
 	if av.Exact {
 		return report.Violated, fmt.Sprintf("stream-controlled operand is exactly %s: values outside [%d,%d] are producible", av.String(), lo, hi)
 	}
-	if av.Hi() > hi && !av.SanHi {
+	if av.Raw && av.Hi() > hi && !av.SanHi {
 		return report.Violated, fmt.Sprintf("stream-controlled operand %s has no upper limit applied anywhere between the stream and this use (needs <= %d)", av.String(), hi)
 	}
-	if av.Lo() < lo && !av.SanLo {
+	if av.Raw && av.Lo() < lo && !av.SanLo {
 		return report.Violated, fmt.Sprintf("stream-controlled operand %s has no lower limit applied anywhere between the stream and this use (needs >= %d)", av.String(), lo)
 	}
 	return report.OutOfScope, "operand " + av.String() + " is stream-derived and was limited somewhere, but the non-relational domain cannot carry the bound to this use"
@@ -261,11 +262,13 @@ func runC08(c *Ctx) Info {
 		}
 	}
 	st := c.rangeObligations(eng, funcs, "")
+	sst := c.sliceObligations(eng, funcs, c.streamSliceOracle())
+	c.C.Note("slice index sites: %d total, %d with constant index (rule SLICE-CONST)", sst.sites, sst.constSites)
 	c.C.Floor("functions", len(funcs), 300)
 	c.C.Floor("IDX", st.idx, 100)
 	c.C.Floor("DIV", st.div, 30)
 	c.C.Floor("MAKE", st.mk, 100)
-	for _, r := range []string{"IDX", "DIV", "MAKE", "SHIFT", "ASSERT", "PANIC"} {
+	for _, r := range []string{"IDX", "DIV", "MAKE", "SHIFT", "ASSERT", "PANIC", "SLICE-CONST"} {
 		c.C.ExpectControl(r)
 	}
 	return Info{
@@ -330,4 +333,11 @@ func (c *Ctx) siteObligations(eng *ranges.Engine, fn *ssa.Function, sites []*ran
 		}
 	}
 	add(rule, fn, construct+" (per call site)", worst, ins, fmt.Sprintf("%d call sites; worst: %s", len(sites), detail))
+}
+
+func (c *Ctx) streamSliceOracle() func(fn *ssa.Function, v ssa.Value) bool {
+	if c.streamOracle != nil {
+		return c.streamOracle
+	}
+	return func(*ssa.Function, ssa.Value) bool { return false }
 }
